@@ -11,7 +11,7 @@ from . import common
 
 LEVEL = "translation_validation"
 # classes whose export is known to disagree with their parsing (see known_findings.json); first match names the culprit of a failing member
-SUSPECTS = ["Enum", "FlagsEnum", "Padded", "NullTerminated", "Prefixed:includelength", "IfThenElse", "PaddedString", "Bytes", "Const", "Padding", "RepeatUntil", "If"]
+SUSPECTS = ["Array:bits", "Enum", "FlagsEnum", "Padded", "NullTerminated", "Prefixed:includelength", "IfThenElse", "PaddedString", "Bytes", "Const", "Padding", "RepeatUntil", "If"]
 SHIM = os.path.join(os.path.dirname(os.path.dirname(os.path.dirname(os.path.abspath(__file__)))), "shim")
 
 # ---------------------------------------------------------------- lexing of expression strings (repr of this-expressions)
@@ -98,6 +98,9 @@ def exportable_member(rng, depth, bit=False):
             isl = A.Bytewise(rng.choice([A.Flag, A.Alias("Int16ub"), A.Alias("Byte"), A.Struct(A.Renamed("x", A.Alias("Byte")), A.Renamed("f", A.Flag))]))
             # a byte-level island reached through a wrapper that asks its member for a primitive type
             return isl if rng.random() < 0.6 else A.Array(2, isl)
+        if r == 4 and rng.random() < 0.5:
+            # a repeated bit-level member (the element type is asked for as a primitive type)
+            return A.Array(rng.choice([2, 3, 8]), rng.choice([A.Flag, A.BitsInteger(rng.choice([1, 3, 4]))]))
         return A.BitsInteger(rng.choice([1, 2, 3, 5, 7, 8, 12]))
     r = rng.randrange(30)
     if r < 6: return A.Alias(rng.choice(["Byte", "Int16ub", "Int16ul", "Int32sb", "Int32ul", "Int8sb", "Int64ub", "Int24ub", "Int24sl"]))
@@ -142,6 +145,12 @@ def bit_members(rng):
     total, out, names = 0, [], iter("uvwxyz")
     while True:
         m = exportable_member(rng, 0, True)
+        if m["k"] == "Array" and m["sub"]["k"] != "Bytewise":
+            ew = 1 if m["sub"]["k"] == "Flag" else V.dec(m["sub"]["len"]["v"])
+            out.append(A.Renamed(next(names), m)); total += V.dec(m["count"]["v"]) * ew
+            if total % 8 == 0 or len(out) >= 5:
+                break
+            continue
         island = m["k"] == "Bytewise" or (m["k"] == "Array" and m["sub"]["k"] == "Bytewise")
         if island and total % 8:
             continue            # KSY byte types are byte aligned; an unaligned Bytewise island has no KSY spelling
@@ -281,7 +290,8 @@ def run(ctx):
             prog = progs_by_case[v["id"]]
             member = next((m for m in prog["subs"] if m.get("name") == v["at"]), None)
             scope = member["sub"] if member else prog
-            mk = sorted({n["k"] + (":includelength" if n["k"] == "Prefixed" and n.get("incl") else "") for n in A.walk(scope)})
+            mk = sorted({n["k"] + (":includelength" if n["k"] == "Prefixed" and n.get("incl") else "") +
+                         (":bits" if n["k"] == "Array" and n["sub"]["k"] in ("Flag", "BitsInteger") else "") for n in A.walk(scope)})
             culprit = next((k for k in SUSPECTS if k in mk), "other")
             ctx.report("C19." + v["why"].split(":")[0], {"why": v["why"], "kinds": mk, "member_kind": culprit},
                        {"kind": "ksy", "prog": prog, "doc": docs[c["di"] - 1], "data": c["data"], "members": c["members"], "verdict": v})
